@@ -3,6 +3,7 @@ package shim
 import (
 	"fmt"
 	"io"
+	"os"
 	"strconv"
 	"sync"
 	"sync/atomic"
@@ -18,8 +19,8 @@ import (
 	"github.com/apache/yunikorn-core/pkg/plugins"
 	"github.com/apache/yunikorn-core/pkg/scheduler"
 	"github.com/apache/yunikorn-core/pkg/scheduler/ugm"
-	siCommon "github.com/apache/yunikorn-scheduler-interface/lib/go/common"
 	"github.com/apache/yunikorn-scheduler-interface/lib/go/api"
+	siCommon "github.com/apache/yunikorn-scheduler-interface/lib/go/common"
 	"github.com/apache/yunikorn-scheduler-interface/lib/go/si"
 
 	"verifharness/res"
@@ -40,6 +41,11 @@ func InitLogger() {
 	logOnce.Do(func() {
 		cfg := zap.NewProductionConfig()
 		cfg.Level = zap.NewAtomicLevelAt(zapcore.ErrorLevel)
+		if os.Getenv("VERIF_CORELOG") != "" {
+			// debugging aid for triage: core log at info level on stderr
+			cfg.Level = zap.NewAtomicLevelAt(zapcore.InfoLevel)
+			LogSink = os.Stderr
+		}
 		enc := zapcore.NewJSONEncoder(cfg.EncoderConfig)
 		var ws zapcore.WriteSyncer = zapcore.AddSync(io.Discard)
 		if LogSink != nil {
@@ -97,6 +103,9 @@ func Start(rmID string, config string, manual bool, extra map[string]string) (*C
 	c.Proxy = c.Ctx.RMProxy
 	c.Sched = c.Ctx.Scheduler
 	ex := map[string]string{"log.level": "ERROR"}
+	if os.Getenv("VERIF_CORELOG") != "" {
+		ex["log.level"] = "INFO"
+	}
 	for k, v := range extra {
 		ex[k] = v
 	}
@@ -288,7 +297,6 @@ func (c *Core) Schedule() bool {
 func CreationTag(ageSec int64) string {
 	return fmt.Sprintf("%d", time.Now().Unix()-ageSec)
 }
-
 
 // Fence is a concurrency-safe barrier for the application/allocation channel only: it returns when everything the
 // caller sent before has been processed. Used by concurrent clients to bound their backlog.
